@@ -42,7 +42,7 @@ def _engine(name):
 
 def _wkw(cfg):
     return {k: v for k, v in cfg.items()
-            if k in ("check_outcome", "check_resource", "check_frozen", "excl", "ordered")}
+            if k in ("check_outcome", "check_resource", "check_frozen", "excl", "ordered", "exact")}
 
 
 def world_from_case(case, directory):
